@@ -449,11 +449,60 @@ def currently_exiting_context(frame: types.FrameType) -> Optional[ExitingContext
         # - if the with stmt has no body, there might be a NOP to attach
         #   line number information to
         # Neither of these are covered by the exception handler block.
-        for _, end, target, *_ in _parse_exception_table(frame.f_code):
-            if end == offs or (
-                end == offs - 2 and code[offs] in (op["SWAP"], op["NOP"])
-            ):
-                return ExitingContext(is_async=is_async, cleanup_offset=target)
+        # Find the with block(s) that control can come from when it reaches
+        # the start of this __exit__ call sequence. We can't assume that the
+        # instruction laid out just before the sequence is in that block: if
+        # the body ends in something like ``if c: return K`` or a try/except,
+        # the preceding instruction belongs to some other basic block.
+        table = list(_parse_exception_table(frame.f_code))
+
+        def innermost_with_handler(at: int) -> Optional[Tuple[int, int]]:
+            for _ in range(len(table) + 1):
+                for start, end, target, depth, _ in table:
+                    if start <= at <= end:
+                        break
+                else:
+                    return None
+                if (
+                    code[target] == op["PUSH_EXC_INFO"]
+                    and code[target + 2] == op["WITH_EXCEPT_START"]
+                ):
+                    return depth, target
+                at = target
+            return None  # pragma: no cover
+
+        insns = list(dis.get_instructions(frame.f_code))
+        no_fallthrough = {
+            "JUMP_FORWARD", "JUMP_BACKWARD", "JUMP_BACKWARD_NO_INTERRUPT",
+            "RETURN_VALUE", "RETURN_CONST", "RAISE_VARARGS", "RERAISE",
+        }
+
+        def predecessors(of: int) -> List[dis.Instruction]:
+            ret = []
+            for idx, insn in enumerate(insns):
+                if insn.offset >= of:
+                    nxt = None
+                else:
+                    nxt = insns[idx + 1].offset if idx + 1 < len(insns) else None
+                    while nxt is not None and code[nxt] == op["CACHE"]:  # pragma: no cover
+                        nxt += 2
+                if nxt == of and insn.opname not in no_fallthrough:
+                    ret.append(insn)
+                elif insn.opcode in dis.hasjrel + dis.hasjabs and insn.argval == of:
+                    ret.append(insn)
+            return ret
+
+        candidates = []
+        todo = predecessors(offs + 2)
+        for pred in todo:
+            found = innermost_with_handler(pred.offset)
+            if found is not None:
+                candidates.append(found)
+            if pred.opname in ("SWAP", "NOP", "EXTENDED_ARG") and len(todo) < 64:
+                # might be part of the exit sequence rather than the body
+                todo.extend(predecessors(pred.offset))
+        if candidates:
+            return ExitingContext(is_async=is_async, cleanup_offset=max(candidates)[1])
         warnings.warn(
             f"Surprise during analysis of {frame.f_code!r}: couldn't find an "
             f"exception table entry ending at {offs} just before the call to "
